@@ -9,6 +9,7 @@ import (
 	"os"
 	"os/exec"
 	"path/filepath"
+	"sync"
 	"sync/atomic"
 	"time"
 )
@@ -94,6 +95,20 @@ type Stats struct {
 	Timeouts  int64
 	Crashes   int64
 	ProcWallN int64 // nanoseconds
+
+	mu      sync.Mutex
+	PerSite map[string]int64 // iteration events per rewritten site
+}
+
+func (st *Stats) addSites(per map[string]int) {
+	st.mu.Lock()
+	defer st.mu.Unlock()
+	if st.PerSite == nil {
+		st.PerSite = map[string]int64{}
+	}
+	for k, v := range per {
+		st.PerSite[k] += int64(v)
+	}
 }
 
 var procSeq int64
@@ -180,6 +195,7 @@ func (e *Env) RunProc(p *Proc, workDir string, timeout time.Duration, st *Stats,
 		atomic.AddInt64(&st.Ops, int64(len(res.Records)))
 		atomic.AddInt64(&st.Events, int64(res.Events))
 		atomic.AddInt64(&st.NonCanon, int64(res.NonCanon))
+		st.addSites(res.PerSite)
 	}
 	switch {
 	case ctx.Err() == context.DeadlineExceeded:
